@@ -233,4 +233,128 @@ theorem written_objects_perm (cells : List WCell) (hcell : ∀ c ∈ cells, Cell
   refine List.Perm.trans (List.Perm.of_eq ?_) h1.symm
   rw [List.filter_flatMap, List.map_flatMap]
 
+/-! ### the header lines contribute no data lines -/
+
+/-- a line the header writer emits: empty, or `#` followed by a character that is neither a digit nor white space -/
+def HeaderLike (l : Bytes) : Prop := l = [] ∨ ∃ c rest, l = '#' :: c :: rest ∧ isDigit c = false ∧ isWs c = false
+
+theorem lstrip_append_keep (A B : Bytes) : ∃ A', lstrip (A ++ B) = A' ++ B ∨ (lstrip (A ++ B) = lstrip B) := by
+  induction A with
+  | nil => exact ⟨[], Or.inr rfl⟩
+  | cons a t ih =>
+    by_cases ha : isWs a = true
+    · obtain ⟨A', h⟩ := ih
+      refine ⟨A', ?_⟩
+      simp only [List.cons_append, lstrip, ha, if_true]
+      exact h
+    · exact ⟨a :: t, Or.inl (by simp [lstrip, ha])⟩
+
+theorem strip_headerLike (c : Char) (rest : Bytes) (hc : isWs c = false) :
+    ∃ rest', strip ('#' :: c :: rest) = '#' :: c :: rest' := by
+  unfold strip
+  have hsharp : isWs '#' = false := by decide
+  have h1 : lstrip ('#' :: c :: rest) = '#' :: c :: rest := by simp [lstrip, hsharp]
+  rw [h1]
+  have hrev : ('#' :: c :: rest).reverse = rest.reverse ++ [c, '#'] := by simp
+  rw [hrev]
+  obtain ⟨A', h⟩ := lstrip_append_keep rest.reverse [c, '#']
+  rcases h with h | h
+  · rw [h]; exact ⟨A'.reverse, by simp⟩
+  · rw [h]
+    have : lstrip [c, '#'] = [c, '#'] := by simp [lstrip, hc]
+    rw [this]; exact ⟨[], by simp⟩
+
+/-- a header-like line is classified as a header entry or skipped: never a data line, never an error -/
+theorem classify_headerLike (l : Bytes) (h : HeaderLike l) :
+    (∃ k v, classify l = .ok (.header k v)) ∨ classify l = .ok .skip := by
+  rcases h with rfl | ⟨c, rest, rfl, hd, hw⟩
+  · right; rfl
+  · obtain ⟨rest', hs⟩ := strip_headerLike c rest hw
+    unfold classify
+    rw [hs]
+    simp only []
+    cases hsp : splitSpace1 ('#' :: c :: rest') with
+    | mk k v =>
+      cases v with
+      | some v => left; exact ⟨k.drop 1, v, rfl⟩
+      | none =>
+        right
+        -- no space: the command is the line itself
+        have hk : k = '#' :: c :: rest' := by
+          have : ∀ (s : Bytes) (a : Bytes), splitSpace1 s = (a, none) → a = s := by
+            intro s
+            induction s with
+            | nil => intro a h; simp [splitSpace1] at h; exact h
+            | cons x t ih =>
+              intro a h
+              simp only [splitSpace1] at h
+              by_cases hx : x = ' '
+              · simp [hx] at h
+              · simp only [hx, if_false] at h
+                cases ht : splitSpace1 t with
+                | mk a' b' =>
+                  simp only [ht, Prod.mk.injEq] at h
+                  obtain ⟨rfl, rfl⟩ := h
+                  rw [ih a' ht]
+          exact this _ _ hsp
+        subst hk
+        simp [hd]
+
+/-- **The header lines contribute no data lines**: folding the lexer over header-like lines leaves the data lines
+collected so far untouched. -/
+theorem foldlE_docStep_header (ls : List Bytes) (h : ∀ l ∈ ls, HeaderLike l) :
+    ∀ doc0 : Doc, ∃ H, foldlE docStep doc0 ls = .ok ⟨H, doc0.notes⟩ := by
+  induction ls with
+  | nil => intro doc0; exact ⟨doc0.header, rfl⟩
+  | cons l t ih =>
+    intro doc0
+    rw [foldlE_cons]
+    rcases classify_headerLike l (h l (by simp)) with ⟨k, v, hc⟩ | hc
+    · simp only [docStep, hc]
+      exact ih (fun x hx => h x (by simp [hx])) _
+    · simp only [docStep, hc]
+      exact ih (fun x hx => h x (by simp [hx])) _
+
+theorem foldlE_append {σ α} (f : σ → α → Except Err σ) (a b : List α) (s s' : σ) (h : foldlE f s a = .ok s') :
+    foldlE f s (a ++ b) = foldlE f s' b := by
+  induction a generalizing s with
+  | nil => simp only [foldlE] at h; cases h; rfl
+  | cons x t ih =>
+    rw [List.cons_append, foldlE_cons]
+    rw [foldlE_cons] at h
+    cases hx : f s x with
+    | error e => simp [hx] at h
+    | ok s1 => simp only [hx] at h ⊢; exact ih s1 h
+
+/-- the lines the header writer emits are header-like when the `misc` keys start with a letter-like character -/
+theorem writeHeader_headerLike (c : WChart) (hl : List Bytes) (h : writeHeader c = .ok hl)
+    (hmisc : ∀ kv ∈ c.misc, ∃ a r, kv.1 = a :: r ∧ isDigit a = false ∧ isWs a = false) : ∀ l ∈ hl, HeaderLike l := by
+  unfold writeHeader at h
+  cases hb : c.bpms with
+  | nil => simp [hb] at h
+  | cons b0 rest =>
+    simp only [hb] at h
+    split at h
+    · cases h
+    · cases hs : showExact b0.bpm with
+      | none => simp [hs] at h
+      | some txt =>
+        simp only [hs, Except.ok.injEq] at h
+        subst h
+        intro l hl'
+        simp only [List.mem_append, List.mem_cons, List.mem_map, List.not_mem_nil, or_false] at hl'
+        rcases hl' with ((((rfl | rfl | rfl | rfl) | ⟨kv, hkv, rfl⟩) | rfl) | ⟨p, _, rfl⟩) | ⟨kv, _, rfl⟩
+        · exact Or.inr ⟨'T', _, rfl, by decide, by decide⟩
+        · exact Or.inr ⟨'A', _, rfl, by decide, by decide⟩
+        · exact Or.inr ⟨'B', _, rfl, by decide, by decide⟩
+        · exact Or.inr ⟨'P', _, rfl, by decide, by decide⟩
+        · obtain ⟨a, r, hk, hd, hw⟩ := hmisc kv hkv
+          exact Or.inr ⟨a, r ++ [' '] ++ kv.2, by simp [hk], hd, hw⟩
+        · by_cases he : c.lnEnd.isEmpty = true
+          · simp [he]; exact Or.inl rfl
+          · simp only [he, Bool.false_eq_true, if_false]
+            exact Or.inr ⟨'L', _, rfl, by decide, by decide⟩
+        · exact Or.inr ⟨'B', _, rfl, by decide, by decide⟩
+        · exact Or.inr ⟨'W', _, rfl, by decide, by decide⟩
+
 end Reamber.BMS
